@@ -228,7 +228,36 @@ def run(ctx):
         ctx.inst("C03.R4", "name=%s" % nm, nm in refused or nm in reserved, "resolved specially by the evaluator; refused by the assignment arm: %s; reserved word: %s" % (nm in refused, nm in reserved), H.loc(assign_arm["body"]))
     for nm in sorted(reserved):
         ctx.inst("C03.R4", "reserved=%s" % nm, True, "reserved word: `identifier` cannot produce it (C10.R4/R5 decide the guard)", "blots-core/src/grammar.pest")
+    # every word the grammar itself uses as a keyword token is unbindable too: reserved, or refused by the assignment arm.
+    # Words that only occur as infix operators (a position where no identifier can start) are contextual and recorded, not judged.
+    infix_only = set()
+    for holder in ("natural_infix_op", "lambda_natural_infix_op"):
+        if holder in G.rules:
+            for r_ in G.alt_names_safe(holder) or []:
+                try:
+                    infix_only |= set(G.literals(G.expr(r_)))
+                except CheckerError:
+                    pass
+    kw = {}
+    for rn in G.order:
+        if rn == "reserved_word":
+            continue
+        for e in G.walk(G.expr(rn)):
+            if e["k"] == "str" and len(e["v"]) >= 2 and e["v"].isalpha() and e["v"].islower():
+                kw.setdefault(e["v"], set()).add(rn)
+    for w in sorted(kw):
+        if w in reserved:
+            continue  # decided above
+        if w in infix_only and all(r_ in (G.alt_names_safe("natural_infix_op") or []) + (G.alt_names_safe("lambda_natural_infix_op") or []) for r_ in kw[w]):
+            ctx.inst("C03.R4", "operator-word=%s" % w, None, "`%s` is spelled as a word but only occurs in infix position, where no name can start: it is bindable as a name today; whether the statement counts it as a keyword is not decided" % w, "blots-core/src/grammar.pest")
+            continue
+        ctx.inst("C03.R4", "keyword=%s" % w, w in refused, "the grammar uses `%s` as a keyword token (in %s) but `identifier` can produce it; refused by the top-level assignment arm: %s" % (w, sorted(kw[w]), w in refused), "blots-core/src/grammar.pest")
     ctx.inst("C03.R4", "builtins", bi is not None, "built-in names are refused through is_built_in_function (completeness of from_ident is C05.L7)", H.loc(assign_arm["body"]))
+
+    # ------------- R5 what a bound name refers to is never modified in place
+    from rules import c02
+    c02.heap_write_once(ctx, "C03.R5", core, [core, ctx.cli, ctx.wasm], cg,
+                        doc="the value a bound name refers to is never modified in place: heap cells are only appended; the one in-place write (naming a lambda) happens only while the name is unset, so a later binding cannot change what an earlier name does")
 
     # ------------- R3 fresh child scopes
     ctx.rule("C03.R3", "every do-block statement is evaluated in an environment created by Environment::extend in the same arm, and a function body in Environment::extend_with: a child scope never is the parent itself", floor=3)
